@@ -2,6 +2,7 @@ package checks
 
 import (
 	"fmt"
+	"os"
 	"reflect"
 	"strings"
 	"unicode/utf8"
@@ -140,6 +141,39 @@ func listMembers(e formula.Expression) (lo, hi int, members []formula.Expression
 	return 0, 0, nil
 }
 
+// checkRangesOnly: the nesting / ordering half of checkNode, for trees that are returned together
+// with a syntax error (recovery nodes included): every range lies in the text, children lie in their
+// parent in source order. (Their texts are not required to re-parse.)
+func checkRangesOnly(text []byte, e formula.Expression, depth int) *eng.Fail {
+	if e == nil || reflect.ValueOf(e).IsNil() || depth > 10000 {
+		return nil
+	}
+	pos, end := e.Pos(), e.End()
+	if pos < 0 || pos > end || end > len(text) {
+		return eng.F("C15/error-tree-range", "in the tree returned with the error, %T has range [%d,%d) in a text of %d bytes", e, pos, end, len(text))
+	}
+	parts, kids := childRanges(e)
+	prev := pos
+	for _, p := range parts {
+		if p.pos < pos || p.end > end || p.pos > p.end {
+			return eng.F("C15/error-tree-range", "in the tree returned with the error, %T [%d,%d): %s has range [%d,%d)", e, pos, end, p.what, p.pos, p.end)
+		}
+		if p.pos < prev {
+			return eng.F("C15/error-tree-order", "in the tree returned with the error, %T [%d,%d): %s at [%d,%d) starts before the previous part ended (%d)", e, pos, end, p.what, p.pos, p.end, prev)
+		}
+		prev = p.end
+	}
+	for _, k := range kids {
+		if k == nil || reflect.ValueOf(k).IsNil() {
+			continue
+		}
+		if f := checkRangesOnly(text, k, depth+1); f != nil {
+			return f
+		}
+	}
+	return nil
+}
+
 func checkNode(text []byte, e formula.Expression, depth int) *eng.Fail {
 	pos, end := e.Pos(), e.End()
 	if pos < 0 || pos > end || end > len(text) {
@@ -224,6 +258,11 @@ func judgeRanges(text []byte) *eng.Fail {
 	// formatting the same diagnostic again gives the same text
 	if got := formula.FormatDiagnostic(o.src, d); got != want {
 		return eng.F("C15/format-diagnostic", "FormatDiagnostic gives %q, expected %q", got, want)
+	}
+	if o.src.Expression != nil && os.Getenv("VERIF_C15_ERRTREE") != "0" {
+		if f := checkRangesOnly(text, o.src.Expression, 0); f != nil {
+			return f
+		}
 	}
 	return nil
 }
